@@ -25,6 +25,7 @@ struct State {
     clone_fault: Option<u32>,
     clone_faults_fired: u32,
     drops: u64,
+    zst_live: i64,
 }
 
 thread_local! {
@@ -107,6 +108,24 @@ pub fn take_bad() -> Vec<String> {
 
 pub fn take_events() -> Vec<Event> {
     ST.with(|s| std::mem::take(&mut s.borrow_mut().events))
+}
+
+/// zero-sized tracked payloads cannot carry an id: they are counted
+pub fn zst_created() {
+    ST.with(|s| s.borrow_mut().zst_live += 1)
+}
+pub fn zst_dropped() {
+    ST.with(|s| {
+        let mut s = s.borrow_mut();
+        s.drops += 1;
+        s.zst_live -= 1;
+        if s.zst_live < 0 {
+            s.bad.push("a zero-sized payload was dropped more often than it was created".to_string());
+        }
+    })
+}
+pub fn zst_live() -> i64 {
+    ST.with(|s| s.borrow().zst_live)
 }
 
 pub fn drops() -> u64 {
